@@ -656,7 +656,12 @@ func (lr *liveRun) live(id int, in c06in, a *lib.TLAsset, inQuantifier bool) (st
 	}
 	sm, err := m.MPDFromBytes(single.Body)
 	if err != nil || len(sm.Periods) != 1 {
-		lr.fail(sid, "unparsable", "single-period MPD", in)
+		lr.fail(sid, "unparsable", fmt.Sprintf("single-period MPD: %v (%d periods)", err, func() int {
+			if sm == nil {
+				return -1
+			}
+			return len(sm.Periods)
+		}()), in)
 		return "", false
 	}
 	if inQuantifier {
@@ -828,6 +833,7 @@ func run(c *lib.Ctx) error {
 
 	var terms []string
 	id := 0
+	sweepStatusOnly := 0
 	specs := []struct{ path, mpd string }{
 		{"testpic_2s", "Manifest.mpd"}, {"testpic_2s", "Manifest_thumbs.mpd"}, {"testpic_2s", "Manifest_imsc1.mpd"},
 		{"testpic_8s", "Manifest.mpd"}, {"testpic_6s", "Manifest.mpd"}, {"testpic_alt_seg_dur_stl", "Manifest.mpd"},
@@ -1123,10 +1129,31 @@ func run(c *lib.Ctx) error {
 	if root, err := os.MkdirTemp("", "c06gen"); err == nil {
 		defer os.RemoveAll(root)
 		var gas []*lib.TLAsset
+		fractional := map[string]bool{}
+		var layouts []lib.GenLayout
 		for _, l := range lib.GenCatalogue() {
-			if !genNames[l.Asset.Name] || l.Class != "ok" {
-				continue
+			if genNames[l.Asset.Name] && l.Class == "ok" {
+				layouts = append(layouts, l)
 			}
+		}
+		// segment durations that are no whole number of seconds: 1.92 s, 3.84 s, 2.56 s (25 fps); sub-second
+		// durations are left out: the served MPD then carries minimumUpdatePeriod="960000000S" (dash-mpd
+		// Duration.String below one second), which no DASH parser accepts - reported, not a C06 matter
+		v192 := lib.UniformDurs(4, 48*512)
+		v384 := lib.UniformDurs(4, 96*3600)
+		v256 := lib.UniformDurs(3, 64*512)
+		for _, ga := range []lib.GenAsset{
+			{Name: "c06_1920ms", Reps: []lib.GenRep{lib.VideoRep("V1", 12800, 512, v192), lib.AudioRep("A48", 1024, lib.AudioDursFollowing(v192, 12800, 48000, 1024, 0)), lib.StppRep("sub_en", 1000, lib.UniformDurs(4, 1920))}},
+			{Name: "c06_3840ms", Reps: []lib.GenRep{lib.VideoRep("V1", 90000, 3600, v384), lib.AudioRep("A48", 1024, lib.AudioDursFollowing(v384, 90000, 48000, 1024, 0))}},
+			{Name: "c06_2560ms", Reps: []lib.GenRep{lib.VideoRep("V1", 12800, 512, v256), lib.AudioRep("A48", 1024, lib.AudioDursFollowing(v256, 12800, 48000, 1024, 0))}},
+		} {
+			if ok, why := ga.PredictAdmission(); !ok {
+				return fmt.Errorf("generated asset %s not admissible: %s", ga.Name, why)
+			}
+			fractional[ga.Name] = true
+			layouts = append(layouts, lib.GenLayout{Asset: ga, Class: "ok"})
+		}
+		for _, l := range layouts {
 			if err := lib.WriteAsset(root, l.Asset); err != nil {
 				return fmt.Errorf("WriteAsset %s: %w", l.Asset.Name, err)
 			}
@@ -1199,9 +1226,63 @@ func run(c *lib.Ctx) error {
 				}
 			}
 		}
+		// fractional-second segment durations crossed with EVERY periods-per-hour value 1..3600: a value is a
+		// candidate when the whole-second period 3600/n (integer division, as the code defines it) or the exact
+		// period 3600000/n ms is a whole number of segments; all candidates and a sample of the others get the
+		// full oracle and the model, all other values must be refused with the rejection message
+		for _, a := range gas {
+			if !fractional[a.Path] || (a.Path == "c06_3840ms" && !c.Thorough()) {
+				continue
+			}
+			N := int64(len(a.Ref().Segs))
+			segMS := (a.RefDur*1000 + a.RefTS*N/2) / (a.RefTS * N)
+			for n := int64(1); n <= 3600; n++ {
+				P := 3600 / n
+				floorFits := (P*1000)%segMS == 0
+				exactFits := 3600000%n == 0 && (3600000/n)%segMS == 0
+				mode := modes[int(n)%3]
+				b := int64(1+rng.Intn(30)) * P * 1000
+				offs := []int64{-1, 0, 1, segMS, 60000, rng.Int63n(P*1000 + 1)}
+				in := c06in{Kind: "live", Asset: a.Path, MPD: a.MPD, Mode: mode, PPH: n, Tsbd: -1, Snr: -1, Cont: n%5 == 0,
+					NowMS: b + offs[rng.Intn(len(offs))], Instant: "pph-sweep"}
+				if in.NowMS < 0 {
+					in.NowMS = b
+				}
+				if floorFits || exactFits || c.Thorough() || rng.Intn(120) == 0 {
+					glr.fetchAll = false
+					term, ok := glr.live(id, in, a, true)
+					switch {
+					case floorFits:
+						c.Count("sweep/" + a.Path + "/fits-whole-second-period")
+					case exactFits:
+						c.Count("sweep/" + a.Path + "/fits-exact-period-only")
+					default:
+						c.Count("sweep/" + a.Path + "/sampled-rejected")
+					}
+					if ok {
+						terms = append(terms, term)
+					}
+					id++
+					continue
+				}
+				// must be refused
+				in.URLMulti = mpdURL(in, true)
+				r := gls.GetRaw(in.URLMulti)
+				c.Count("sweep/" + a.Path + "/status-only")
+				sweepStatusOnly++
+				switch {
+				case r.Panic != "":
+					c.Fail(fmt.Sprintf("sweep-%s-%d", a.Path, n), "panic:"+r.Panic, "multi-period MPD request panicked", in)
+				case r.Status == 200:
+					c.Fail(fmt.Sprintf("sweep-%s-%d", a.Path, n), "reject:accepted", fmt.Sprintf("period duration %d s is not a multiple of the segment duration %d ms but the MPD was produced", P, segMS), in)
+				case r.Status != 400 || !strings.Contains(string(r.Body), "not a multiple of segment duration"):
+					c.Fail(fmt.Sprintf("sweep-%s-%d", a.Path, n), fmt.Sprintf("reject:status-%d", r.Status), "rejection without the expected message: "+string(r.Body), in)
+				}
+			}
+		}
 		lr.fetched += glr.fetched
 	}
-	nLive := id
+	nLive := id + sweepStatusOnly
 
 	// ---- L2: reduceS
 	nReduce := 2500
@@ -1250,7 +1331,7 @@ func run(c *lib.Ctx) error {
 		id++
 	}
 
-	c.Res.Evaluations = id + lr.fetched // model cases + segment pairs fetched and byte-compared
+	c.Res.Evaluations = id + lr.fetched + sweepStatusOnly // model cases + segment pairs fetched and byte-compared + status-only sweep requests
 	c.Res.ModelCases = id
 	c.Res.DistinctNontrivial = len(lr.distinct)
 	c.Res.Notes = append(c.Res.Notes, fmt.Sprintf("L1: %d MPD pairs, %d segment pairs fetched through period-relative and single-period URLs (%d distinct period-relative URLs answered 200 with identical bytes); L2: %d reduceS cases, %d splitPeriod cases", nLive, lr.fetched, len(lr.distinct), nReduce, nSplit))
